@@ -362,7 +362,13 @@ def orchestrate(prop_id, tier, seed, nshards=None, budget=None):
         procs.append((sh, out, subprocess.Popen(cmd, env=env, cwd=common.VERIF_DIR, start_new_session=True)))
     results, violation, errors = {}, None, []
     pending = dict((sh, (out, p)) for sh, out, p in procs)
+    max_wall = float(os.environ.get("HSVERIF_MAX_WALL") or (1800 if tier == "quick" else 6 * 3600))
     while pending:
+        if time.time() - t0 > max_wall:   # a hang is a harness problem (exit 2), never a verdict
+            for sh, (out, p) in pending.items():
+                _kill_group(p)
+            sys.stderr.write(f"[harness] {prop_id}: workers {sorted(pending)} exceeded {max_wall:.0f}s and were killed\n")
+            return 2
         for sh in list(pending):
             out, p = pending[sh]
             rc = p.poll()
